@@ -214,6 +214,19 @@ def r3_lines(run, F, D):
                    "without `line_number += 1`, later tokens carry a line number one too small, and the error is E162 where the "
                    "first generation reports a trailing backslash (E163)")
     run.floor("R3-NEXT-IF-NOT-NEWLINE", 3)
+    # the scanner takes bytes one at a time, and only through calls whose treatment of b'\n' the rules above decide (next at the head of
+    # the loop or after a peek, next_if with a `!= b'\n'` closure); a bulk skip (nth, skip, advance_by, find, position, last, ..) can
+    # step over a line feed without the line accounting of the b'\n' arm
+    used = {}
+    for c in hirq.calls(b["hir"]):
+        if c.get("k") == "MethodCall":
+            r = hirq.unwrap_trivial(c["recv"])
+            t = str(F.lib.ty(r.get("t"))) if r.get("t") is not None else ""
+            if "Peekable<" in t and "Enumerate<" in t:
+                used.setdefault(c.get("name"), c)
+    other = sorted(k for k in used if k not in ("next", "peek", "next_if", "next_if_eq", "peek_mut"))
+    run.ob("R3-NEWLINE-CONSUME", "bytes are taken one at a time", bool(used) and not other, F.where(b, used[other[0]]) if other else F.where(b),
+           "methods called on the scanner's byte iterator: %s; not reviewed (can consume a line feed unseen): %s" % (sorted(used), other))
     run.floor("R3-NEWLINE-CONSUME", 2)
 
 
